@@ -104,7 +104,7 @@ func (c *c12State) walk(when string, depth int, keep bool) moss.Snapshot {
 			if d := CompareSnapshot(cur, NewNode(), ReadOpts{SkipGets: true}, "prev"); d != "" {
 				c.Failf("%s: walking back %d steps yields a snapshot beyond the recorded history (%d rounds): %s", when, i, n, d)
 			}
-		} else if d := CompareSnapshot(cur, want, c.readOpts(), fmt.Sprintf("previous[%d]", i)); d != "" {
+		} else if d := CompareSnapshot(cur, want, c.storeReadOpts(), fmt.Sprintf("previous[%d]", i)); d != "" {
 			if i >= n {
 				c.Failf("%s: walking back %d steps (past a revert) yields content that matches no recorded round: %s", when, i, d)
 			}
